@@ -164,17 +164,20 @@ def protocols : List Protocol := [
   { name := "coo.concatenate", operands := ["a.coords", "a.data", "b.coords", "b.data"],
     steps := [alloc, alloc, writeInPlace 5, viewOf 5, viewOf 4],
     result := [("coords", 6), ("data", 7)] },
-  -- _coo/common.py stack: coords = np.concatenate; data = np.concatenate; new = np.empty; new[…] = dim; coords = [new] + …; np.stack
+  -- _coo/common.py stack: data = np.concatenate; coords = np.concatenate; new = np.empty; new[…] = dim; coords = np.stack([…new…])
   { name := "coo.stack", operands := ["a.coords", "a.data", "b.coords", "b.data"],
-    steps := [alloc, alloc, alloc, writeInPlace 6, alloc, viewOf 7, viewOf 5],
+    steps := [alloc, alloc, alloc, writeInPlace 6, alloc, viewOf 7, viewOf 4],
     result := [("coords", 8), ("data", 9)] },
-  -- _coo/core.py COO._sort_indices: self.coords = self.coords[:, order]; self.data = self.data[order]  (re-binding)
+  -- _coo/core.py COO._sort_indices: linear = self.linear_loc(); if already sorted: return (the caller's buffers stay);
+  --   else self.coords = self.coords[:, order]; self.data = self.data[order] (re-binding to new arrays, no write).
+  --   Straight-line upper bound of both branches: the attributes MAY still be the caller's buffers.
   { name := "coo._sort_indices", operands := ["coords", "data"],
-    steps := [alloc, alloc, alloc],
+    steps := [alloc, viewOf 0, viewOf 1],
     result := [("coords", 3), ("data", 4)] },
-  -- _coo/core.py COO._sum_duplicates: coords = self.coords[:, mask]; data = np.add.reduceat(…)  (re-binding)
+  -- _coo/core.py COO._sum_duplicates: no duplicates: return; else coords = self.coords[:, mask]; data = np.add.reduceat(…)
+  --   (re-binding, no write) — same upper bound
   { name := "coo._sum_duplicates", operands := ["coords", "data"],
-    steps := [alloc, alloc, alloc],
+    steps := [alloc, viewOf 0, viewOf 1],
     result := [("coords", 3), ("data", 4)] },
   -- _coo/core.py COO.todense: x = np.full(shape, fill); x[coords] = data
   { name := "coo.todense", operands := ["coords", "data"],
@@ -188,14 +191,17 @@ def protocols : List Protocol := [
   { name := "coo.sort", operands := ["coords", "data"],
     steps := [alloc, viewOf 1, copyOf 3, alloc, writeInPlace 4, writeInPlace 5, alloc],
     result := [("coords", 6), ("data", 4)] },
-  -- _coo/common.py _arg_minmax_common: _compute_minmax_args(x.coords.copy(), x.data.copy(), …) — the kernel overwrites its arguments
+  -- _coo/common.py _arg_minmax_common: x = x.transpose(…).reshape(…); _compute_minmax_args(x.coords.copy(), x.data.copy(), …)
+  --   returns (np.unique(…), np.array(result_data)); COO(result_indices, result_data, prune=True)
   { name := "coo.argmax", operands := ["coords", "data"],
-    steps := [alloc, viewOf 1, copyOf 2, copyOf 3, writeInPlace 4, writeInPlace 5],
-    result := [("coords", 4), ("data", 5)] },
-  -- _sparse_array.py reduce: data = method.reduceat(…); data[missing_counts] = method(data[missing_counts], fill)
+    steps := [alloc, viewOf 1, copyOf 2, copyOf 3, alloc, alloc],
+    result := [("coords", 6), ("data", 7)] },
+  -- _sparse_array.py reduce / COO._reduce_calc / _reduce_return: a = self.transpose(…).reshape(…);
+  --   data, inv_idx, counts = _grouped_reduce(a.data, a.coords[0], method)  (reduceat → new);
+  --   data[missing_counts] = method(data[missing_counts], fill);  coords = a.coords[0:1, inv_idx];  COO(coords, data, prune=True)
   { name := "coo.reduce", operands := ["coords", "data"],
-    steps := [alloc, alloc, alloc, writeInPlace 3],
-    result := [("coords", 4), ("data", 3)] },
+    steps := [alloc, alloc, alloc, alloc, writeInPlace 3, alloc],
+    result := [("coords", 6), ("data", 3)] },
   -- _sparse_array.py __array_ufunc__(out=o): result = elemwise(…); out._make_shallow_copy_of(result)
   --   i.e. out.__dict__ = result.__dict__.copy(): the target's attributes are re-bound, its old buffers are not written
   { name := "coo.ufunc_out", operands := ["a.coords", "a.data", "out.coords", "out.data"],
@@ -222,9 +228,14 @@ def protocols : List Protocol := [
     steps := [alloc, alloc, viewOf 0],
     result := [("coords", 4), ("data", 5)] },
   -- _compressed/compressed.py _from_coo: linear/coords arithmetic into np.empty buffers; indptr = np.empty; indptr[0] = 0; np.cumsum(out=indptr[1:])
+  --   indices = coords[1]; data = x.data[order]
   { name := "gcxs.from_coo", operands := ["coords", "data"],
-    steps := [alloc, alloc, writeInPlace 3, alloc, writeInPlace 4, viewOf 4, writeInPlace 5, alloc, alloc],
-    result := [("data", 7), ("indices", 6), ("indptr", 4)] }
+    steps := [alloc, alloc, writeInPlace 3, alloc, writeInPlace 4, viewOf 4, writeInPlace 5, viewOf 3, alloc],
+    result := [("data", 7), ("indices", 6), ("indptr", 4)] },
+  -- _compressed/compressed.py _from_coo, 1-d: return ((x.data, x.coords[0], ()), …) — the operand's own buffers
+  { name := "gcxs.from_coo_1d", operands := ["coords", "data"],
+    steps := [viewOf 1, viewOf 0],
+    result := [("data", 2), ("indices", 3)] }
 ]
 
 end SparseV.Buffer
